@@ -1,3 +1,4 @@
+import Props.GenJoinTail
 import Props.GenHeads
 import Props.GenJoin
 import Props.GenTraverse
@@ -5,3 +6,4 @@ open Model.SlicesGen
 #print axioms traverse_eq
 #print axioms findHeads_eq
 #print axioms logDifference_eq
+#print axioms joinTail_eq
